@@ -98,7 +98,10 @@ ParseEvent(r) ==
     paired |-> "fl" \in DOMAIN r,
     fl     |-> IF "fl" \in DOMAIN r THEN ToSet(r.fl) ELSE {},
     out0   |-> IF "fl" \in DOMAIN r THEN ParseOut(r.out0) ELSE NoOut,
-    same0  |-> IF "fl" \in DOMAIN r THEN (r.post = r.post0 /\ r.ret = r.ret0) ELSE TRUE ]
+    same0  |-> IF "fl" \in DOMAIN r THEN (r.post = r.post0 /\ r.ret = r.ret0) ELSE TRUE,
+    \* concurrent blocks: the requests issued concurrently and how each handler returned
+    reqs   |-> IF "reqs" \in DOMAIN r THEN r.reqs ELSE <<>>,
+    rets   |-> IF "rets" \in DOMAIN r THEN r.rets ELSE <<>> ]
 
 (***************************************************************************)
 (* Behaviour                                                               *)
@@ -116,10 +119,10 @@ TraceNext ==
           /\ views' = [c \in Conns |-> NoView] /\ gh' = NoGhost
      ELSE LET e    == ParseEvent(r)
               post == ParseState(r.post)
-              nv   == NextViews(views, e, cur, post)
+              nv   == IF e.step = "Block" THEN NextViewsBlock(views, e, post) ELSE NextViews(views, e, cur, post)
           IN /\ pre' = cur /\ cur' = post
              /\ ev' = e
-             /\ exp' = Step(cur, [e EXCEPT !.req = e.given])
+             /\ exp' = IF e.step = "Block" THEN {} ELSE Step(cur, [e EXCEPT !.req = e.given])
              /\ views' = nv
              /\ gh' = NextGhost(gh, e, cur, post, views, nv)
 
